@@ -308,6 +308,99 @@ theorem put_strip (md5 : Bytes → Bytes) (m : Mem) (b : Bytes) (k : Key) (md md
   unfold Mem.put
   exact putCommit_strip md5 m b k _ _ body
 
+/-! ### listings do not look at metadata -/
+
+theorem skipCovered_strip (p : Prefix) (last : Bytes) : ∀ (objs : List (Key × Obj)) (nm : Bytes),
+    skipCovered p last (mapV stripO objs) nm = skipCovered p last objs nm := by
+  intro objs
+  induction objs with
+  | nil => intro nm; rfl
+  | cons q rest ih =>
+    intro nm
+    obtain ⟨k, o⟩ := q
+    simp only [mapV, List.map_cons, skipCovered]
+    cases hd : o.data with
+    | none => simp [stripO, hd]
+    | some d =>
+      simp only [stripO, hd, Option.map_some]
+      have hrest : (List.map (fun p : Key × Obj => (p.fst, ({ data := Option.map stripV p.snd.data, versions := List.map stripV p.snd.versions } : Obj))) rest) = mapV stripO rest := rfl
+      rw [hrest]
+      cases hm : p.match_ k with
+      | none => rfl
+      | some r =>
+        obtain ⟨cp, mp⟩ := r
+        cases cp with
+        | false => rfl
+        | true =>
+          simp only
+          split
+          · exact ih k
+          · rfl
+
+theorem listLoop_strip (p : Prefix) (mk : Int) : ∀ (objs : List (Key × Obj)) (cnt : Int) (last : Bytes) (acc : ObjectList),
+    listLoop p mk (mapV stripO objs) cnt last acc = listLoop p mk objs cnt last acc := by
+  intro objs
+  induction objs with
+  | nil => intro cnt last acc; rfl
+  | cons q rest ih =>
+    intro cnt last acc
+    obtain ⟨k, o⟩ := q
+    simp only [mapV, List.map_cons, listLoop]
+    cases hd : o.data with
+    | none => simp [stripO, hd]
+    | some d =>
+      simp only [stripO, hd, Option.map_some]
+      have hrest : (List.map (fun p : Key × Obj => (p.fst, ({ data := Option.map stripV p.snd.data, versions := List.map stripV p.snd.versions } : Obj))) rest) = mapV stripO rest := rfl
+      have hse : (mapV stripO rest).isEmpty = rest.isEmpty := by cases rest <;> rfl
+      rw [hrest]
+      cases hm : p.match_ k with
+      | none => simp only; exact ih cnt last acc
+      | some r =>
+        obtain ⟨cp, mp⟩ := r
+        simp only [stripV, hse, ih, skipCovered_strip]
+
+theorem afterMarker_strip (objs : List (Key × Obj)) (marker : Bytes) :
+    afterMarker (mapV stripO objs) marker = mapV stripO (afterMarker objs marker) := by
+  unfold afterMarker
+  split
+  · rfl
+  · simp only [mapV, List.filter_map]
+    rfl
+
+/-- the object listing of the stripped store is the listing of the store -/
+theorem listBucket_strip (m : Mem) (b : Bytes) (p : Prefix) (marker : Bytes) (mk : Int) :
+    (strip m).listBucket b p marker mk = m.listBucket b p marker mk := by
+  unfold Mem.listBucket
+  rw [find_strip]
+  cases SMap.find m.buckets b with
+  | none => rfl
+  | some bk =>
+    simp only [Option.map_some, stripB]
+    rw [afterMarker_strip, listLoop_strip]
+
+/-- a multi-delete commutes with `strip`, with the same answer -/
+theorem deleteFold_strip (b : Bytes) (ks : List Key) : ∀ m1 m2 : Mem, strip m1 = strip m2 →
+    strip (ks.foldl (fun acc k => (Mem.delete acc b k).1) m1) = strip (ks.foldl (fun acc k => (Mem.delete acc b k).1) m2) := by
+  induction ks with
+  | nil => intro m1 m2 h; exact h
+  | cons k ks ih =>
+    intro m1 m2 h
+    simp only [List.foldl_cons]
+    apply ih
+    obtain ⟨a1, _⟩ := delete_strip m1 b k
+    obtain ⟨a2, _⟩ := delete_strip m2 b k
+    rw [a1, a2, h]
+
+theorem deleteMulti_strip (m : Mem) (b : Bytes) (ks : List Key) :
+    strip (m.deleteMulti b ks).1 = strip ((strip m).deleteMulti b ks).1 ∧ (m.deleteMulti b ks).2 = ((strip m).deleteMulti b ks).2 := by
+  unfold Mem.deleteMulti
+  rw [find_strip]
+  cases SMap.find m.buckets b with
+  | none => exact ⟨(strip_idem m).symm, rfl⟩
+  | some bk =>
+    simp only [Option.map_some]
+    exact ⟨deleteFold_strip b ks m (strip m) (strip_idem m).symm, trivial⟩
+
 /-! ### schedules -/
 
 /-- the operations the memory backend runs in one lock region -/
@@ -319,6 +412,8 @@ inductive AOp where
   | createBucket (b : Bytes)
   | deleteBucket (b : Bytes)
   | setVersioning (b : Bytes) (enabled : Bool)
+  | list (b : Bytes) (p : Prefix) (marker : Bytes) (maxKeys : Int)
+  | deleteMulti (b : Bytes) (ks : List Key)
 
 /-- what a client observes, metadata aside: body, length (of the body), ETag, version id, delete
     marker flag; error codes; the version id an upload was given -/
@@ -327,6 +422,8 @@ inductive Obs where
   | del (r : Res (Bool × Option Nat))
   | unit (r : Res Unit)
   | put (r : Res (Option Nat))
+  | listing (r : Res ObjectList)
+  | multi (r : Res (List Key))
   | silent
 deriving DecidableEq
 
@@ -338,6 +435,8 @@ def aop (m : Mem) : AOp → Mem × Obs
   | .createBucket b => ((m.createBucket b).1, .unit (m.createBucket b).2)
   | .deleteBucket b => ((m.deleteBucket b).1, .unit (m.deleteBucket b).2)
   | .setVersioning b e => ((m.setVersioning b e).1, .unit (m.setVersioning b e).2)
+  | .list b p marker mk => (m, .listing (m.listBucket b p marker mk))
+  | .deleteMulti b ks => ((m.deleteMulti b ks).1, .multi (m.deleteMulti b ks).2)
 
 theorem mapR_stripV_idem (r : Res Ver) : mapR stripV (mapR stripV r) = mapR stripV r := by
   cases r <;> rfl
@@ -375,6 +474,13 @@ theorem aop_strip (m : Mem) (op : AOp) :
   | setVersioning b e =>
     obtain ⟨h1, h2⟩ := setVersioning_strip m b e
     obtain ⟨g1, _⟩ := setVersioning_strip (strip m) b e
+    simp only [aop]
+    refine ⟨?_, by rw [h2]⟩
+    rw [h1, g1, strip_idem]
+  | list b p marker mk => exact ⟨(strip_idem m).symm, by simp [aop, listBucket_strip]⟩
+  | deleteMulti b ks =>
+    obtain ⟨h1, h2⟩ := deleteMulti_strip m b ks
+    obtain ⟨g1, _⟩ := deleteMulti_strip (strip m) b ks
     simp only [aop]
     refine ⟨?_, by rw [h2]⟩
     rw [h1, g1, strip_idem]
